@@ -173,7 +173,7 @@ class GeodstStream(cccc.StreamWithDataContainer):
         self._rwFileID()
         self._rw1DRecord()
         geomType = self._metadata["IGOM"]
-        if 0 > geomType >= 3:
+        if 0 < geomType <= 3:
             self._rw2DRecord()
         elif 6 <= geomType <= 11:
             self._rw3DRecord()
